@@ -617,8 +617,16 @@ class RecurrencePlot(Cached):
 
         distance = RecurrencePlot.distance_matrix(self, self.metric)
         n_time = distance.shape[0]
-        threshold = self.threshold_from_recurrence_rate(distance,
-                                                        recurrence_rate)
+        if self.missing_values and self.missing_value_indices.any():
+            #  the quantile refers to the distances between complete state
+            #  vectors only (pairs with a missing value are never recurrent)
+            valid = ~self.missing_value_indices
+            threshold = self.threshold_from_recurrence_rate(
+                distance[np.ix_(valid, valid)], recurrence_rate) \
+                if valid.any() else 0
+        else:
+            threshold = self.threshold_from_recurrence_rate(distance,
+                                                            recurrence_rate)
         recurrence = np.zeros((n_time, n_time), dtype="int8")
         recurrence[distance < threshold] = 1
         if self.missing_values:
@@ -646,13 +654,16 @@ class RecurrencePlot(Cached):
         distance = RecurrencePlot.distance_matrix(self, self.metric)
         n_time = distance.shape[0]
         recurrence = np.zeros((n_time, n_time), dtype="int8")
-        for i in range(n_time):
+        #  with missing values, only the complete state vectors count
+        valid = ~self.missing_value_indices \
+            if self.missing_values else np.ones(n_time, dtype=bool)
+        for i in np.flatnonzero(valid):
             #  Get threshold for state vector i to obtain fixed local
             #  recurrence rate
             local_threshold = self.threshold_from_recurrence_rate(
-                distance[i, :], local_recurrence_rate)
+                distance[i, valid], local_recurrence_rate)
             #  Thresholding the distance matrix for column i
-            recurrence[i, distance[i, :] < local_threshold] = 1
+            recurrence[i, (distance[i, :] < local_threshold) & valid] = 1
         if self.missing_values:
             recurrence[self.missing_value_indices, :] = 0
             recurrence[:, self.missing_value_indices] = 0
